@@ -34,6 +34,8 @@
 //!
 //! This module uses the [`chrono`] crate and can be included using
 //! the `chrono` feature.
+use std::fmt::Write;
+
 use chrono::{
     DateTime, Datelike, FixedOffset, Local, Months, NaiveDate, NaiveDateTime, NaiveTime, TimeZone,
     Timelike,
@@ -122,7 +124,12 @@ pub fn date_to_string(params: &[Value]) -> NativeResult {
         [Value::String(fmt), value] => {
             let datetime = NaiveDateTime::try_from(value)?;
 
-            Ok(Value::String(datetime.format(fmt).to_string()))
+            // `to_string()` panics if the format string is invalid
+            let mut formatted = String::new();
+            write!(formatted, "{}", datetime.format(fmt))
+                .map_err(|_| NativeError::from("invalid format string"))?;
+
+            Ok(Value::String(formatted))
         }
         [_, _] => Err(NativeError::WrongParameterType),
         _ => Err(NativeError::WrongParameterCount(2)),
